@@ -78,6 +78,16 @@ def run(prog, R):
             ok = d is not None and any((c and not e) for (c, e) in d["outs"])
             R.ob("C04.2-statement-dispatch", f"{fn.split('::')[-1]}:{kn}", ok, prog.body(fn).at,
                  f"outcomes (consumed, diagnostic) when the statement starts with {kn}: {d['outs'] if d else None}; a valid statement needs a consuming, diagnostic-free outcome")
+    # ---- C04.2 valid statement prefixes: each listed prefix of a valid statement has a consuming, diagnostic-free
+    # outcome at both statement entry points (the rest of the input being arbitrary)
+    ex = {tuple(e["tokens"]): e["example"] for e in json.load(open(os.path.join(VERIF, "spec", "valid_prefixes.json")))["prefixes"]}
+    npf = 0
+    for (toks, fn), outs in sorted(G.prefix_probe.items(), key=lambda kv: (kv[0][0], str(kv[0][1]))):
+        npf += 1
+        ok = outs is not None and any(c and not e for c, e in outs)
+        R.ob("C04.2-valid-prefix", f"{fn.split('::')[-1]}:{' '.join(toks)}", ok, prog.body(fn).at if fn in prog.bodies else "",
+             f"`{ex.get(toks, '?')}`: outcomes (consumed, diagnostic) {outs}" + ("" if ok else ": every parse of a statement beginning with these tokens reports a diagnostic"))
+    R.floor("valid statement prefix probes", npf, 200)
     # ---- C04.3 assignment binds below binary operators
     import C05
     tab = C05.op_table(G)
